@@ -84,7 +84,7 @@ func refFits(c qrCase, v int) bool {
 	switch c.Header {
 	case "":
 		return c.N <= qr.Capacity(v, l.ref, m.ref)
-	case "eci":
+	case "eci", "eci-euro":
 		bits, err := qr.SegmentBits([]qr.Segment{{Mode: m.ref, Data: refData(m, c.N), ECI: 1}}, v)
 		if err != nil { // count does not fit its indicator
 			return false
@@ -125,6 +125,10 @@ func qrHints(c qrCase) map[gozxing.EncodeHintType]interface{} {
 	if c.Header == "eci" {
 		h[gozxing.EncodeHintType_CHARACTER_SET] = "ISO-8859-1"
 	}
+	if c.Header == "eci-euro" {
+		// the euro sign: ONE byte (0xA4) in ISO-8859-15, three bytes in the UTF-8 Go string
+		h[gozxing.EncodeHintType_CHARACTER_SET] = "ISO-8859-15"
+	}
 	if c.Header == "gs1" {
 		h[gozxing.EncodeHintType_GS1_FORMAT] = true
 	}
@@ -138,6 +142,9 @@ func qrHints(c qrCase) map[gozxing.EncodeHintType]interface{} {
 func runQR(l *mc.Local, c qrCase) {
 	m, lv := modes[c.Mode], levels[c.Level]
 	content := strings.Repeat(m.unit, c.N)
+	if c.Header == "eci-euro" {
+		content = strings.Repeat("€", c.N)
+	}
 	hints := qrHints(c)
 	rc := c
 	rc.ModeS, rc.LevelS = m.name, lv.name
@@ -346,11 +353,12 @@ func qrHeaders() {
 	}
 	for li := range levels {
 		add(2, li, "eci")
+		add(2, li, "eci-euro")
 		for mi := 0; mi < 3; mi++ {
 			add(mi, li, "gs1")
 		}
 	}
-	runQRCases("QR with ECI header (byte, ISO-8859-1 hint) and FNC1 header (GS1, numeric/alphanumeric/byte): largest fitting n and n+1 per version x level, automatic and forced", byCost(cases), 4)
+	runQRCases("QR with ECI header (byte, ISO-8859-1 hint; and ISO-8859-15 with the euro sign: one byte in the symbol, three in the UTF-8 string) and FNC1 header (GS1, numeric/alphanumeric/byte): largest fitting n and n+1 per version x level, automatic and forced", byCost(cases), 4)
 }
 
 // published figures of ISO/IEC 18004 Table 7, asserted literally against the library.
